@@ -135,9 +135,7 @@ struct Array {
             resize(n_size);
         }
 
-        index_ += src.Size();
-
-        Type_T       *storage  = Storage();
+        Type_T       *storage  = (Storage() + Size());
         const Type_T *src_item = src.First();
         const Type_T *src_end  = (src_item + src.Size());
 
@@ -146,6 +144,8 @@ struct Array {
             ++storage;
             ++src_item;
         }
+
+        index_ += src.Size();
     }
 
     void operator+=(Type_T &&item) {
